@@ -9,6 +9,7 @@ import (
 	"strings"
 
 	"verif/harness/core"
+	"verif/harness/srctab"
 
 	"github.com/Chocapikk/pgread/pgdump"
 )
@@ -69,8 +70,62 @@ func jsonOpt(v interface{}) string {
 	return "some " + leanStr(string(b))
 }
 
+// arrayCellVia observes formatSQLValue([]interface{}{elem}, typID) (unexported) through TableDump.ToSQL: the text of the one
+// cell of the one row.
+func arrayCellVia(elem interface{}, typID int) string {
+	t := pgdump.TableDump{Name: "t", Columns: []pgdump.ColumnInfo{{Name: "c", Type: "zz", TypID: typID}},
+		Rows: []map[string]interface{}{{"c": []interface{}{elem}}}}
+	var b bytes.Buffer
+	t.ToSQL(&b)
+	for _, l := range strings.Split(b.String(), "\n") {
+		if strings.HasPrefix(l, "    (") && strings.HasSuffix(l, ");") {
+			return strings.TrimSuffix(strings.TrimPrefix(l, "    ("), ");")
+		}
+	}
+	return "?"
+}
+
 func init() {
 	core.RegisterTable(func(out *bufio.Writer) {
+		// types.go:arrayElemTypes from the source (package srctab), and what the executed code shows of it
+		tab, err := srctab.ArrayElemTypes()
+		if err != nil {
+			panic("arrayElemTypes cannot be read from the source: " + err.Error())
+		}
+		out.WriteString("/-- types.go:arrayElemTypes (array type oid, element type oid), read from the map literal in the current source,\nsorted by key -/\n")
+		out.WriteString("def arrayElemTypes : List (Int × Int) := [")
+		for i, r := range tab {
+			if i > 0 {
+				out.WriteString(", ")
+			}
+			fmt.Fprintf(out, "(%d, %d)", r[0], r[1])
+		}
+		out.WriteString("]\n")
+		out.WriteString("/-- executed: the type oids t in -2..5999 for which the cell [true] of a column of type t is written with a cast, with\nthe text after `ARRAY[…]` and whether the element is written as JSON text ('true') instead of TRUE -/\n")
+		out.WriteString("def arrayCastProbe : List (Int × String × Bool) := [")
+		firstP := true
+		for t := -2; t < maxOid; t++ {
+			c := arrayCellVia(true, t)
+			var rest string
+			var js bool
+			switch {
+			case strings.HasPrefix(c, "ARRAY[TRUE]"):
+				rest = strings.TrimPrefix(c, "ARRAY[TRUE]")
+			case strings.HasPrefix(c, "ARRAY['true']"):
+				rest, js = strings.TrimPrefix(c, "ARRAY['true']"), true
+			default:
+				continue // json/jsonb column: no ARRAY constructor
+			}
+			if rest == "" && !js {
+				continue
+			}
+			if !firstP {
+				out.WriteString(", ")
+			}
+			firstP = false
+			fmt.Fprintf(out, "(%d, %s, %v)", t, leanStr(rest), js)
+		}
+		out.WriteString("]\n")
 		out.WriteString("/-- sql.go:pgTypeToSQL, the type oids decided by its switch with the text it returns (observed through TableDump.ToSQL;\n    an oid is in the switch iff the result does not follow the type name) -/\n")
 		out.WriteString("def sqlTypeSwitch : List (Int × String) := [")
 		first := true
